@@ -2,6 +2,7 @@
    pos > 0 = wrapped, pos is the 1-based slot of the newest unit.  Follows the code after fix fe01ba6
    (iwrb_back at pos 1 of a wrapped ring goes to slot len).  No proofs here. *)
 Require Import ZArith List Bool Lia.
+Require Import IW.Gen.Facts.
 Import ListNotations.
 Local Open Scope Z_scope.
 
@@ -69,6 +70,13 @@ Definition rb_iter (r : rb) : list U := it_all (S (S (S (Z.to_nat (r_len r))))) 
 
 (* specification: the newest-first list of the last len units *)
 Definition d_put (len : Z) (d : list U) (x : U) : list U := firstn (Z.to_nat len) (x :: d).
+
+(* iwrb_wrap(buf, buflen, usize) on a caller's buffer of buflen bytes: NULL when the header and one unit do not fit,
+   otherwise a ring of (buflen - sizeof(IWRB)) / usize units in that buffer.  (usize = 0 divides by zero in the C code:
+   the harness never passes it.) *)
+Definition rb_wrap (buflen usize : Z) : option rb :=
+  if buflen <? CONT_sizeof_IWRB + usize then None
+  else Some (rb_create ((buflen - CONT_sizeof_IWRB) / usize)).
 End Rb.
 
 (* ---------------------------------------------------------------- call sequences *)
@@ -92,6 +100,23 @@ Fixpoint rb_run (r : rb U) (ops : list rop) : list (Z * option U * list U) :=
   match ops with [] => [] | op :: t => let r' := rb_step r op in rb_obs r' :: rb_run r' t end.
 Fixpoint d_run (len : Z) (d : list U) (ops : list rop) : list (Z * option U * list U) :=
   match ops with [] => [] | op :: t => let d' := d_step len d op in d_obs d' :: d_run len d' t end.
+
+(* the state after a call sequence *)
+Definition rb_exec (r : rb U) (ops : list rop) : rb U := fold_left rb_step ops r.
+
+(* The EXACT reference of the code.  The ring has no count field: once it has wrapped it always holds len units, and
+   iwrb_back can only step the position back - the unit it "removes" reappears as the OLDEST unit.  State: (wrapped,
+   newest-first list); wrapped implies that the list has exactly len units. *)
+Definition g_step (len : Z) (s : bool * list U) (op : rop) : bool * list U :=
+  let '(w, d) := s in
+  match op with
+  | RPut x => (w || (len <=? Z.of_nat (length d)), d_put U len d x)
+  | RBack => if w then (true, tl d ++ firstn 1 d) else (false, tl d)
+  | RClear => (false, [])
+  end.
+Fixpoint g_run (len : Z) (s : bool * list U) (ops : list rop) : list (Z * option U * list U) :=
+  match ops with [] => [] | op :: t => let s' := g_step len s op in d_obs (snd s') :: g_run len s' t end.
+Definition g_exec (len : Z) (s : bool * list U) (ops : list rop) : bool * list U := fold_left (g_step len) ops s.
 
 (* back is only specified while the ring has not wrapped (pos <= 0): ops sequences in which every RBack
    happens before the first overwrite since the last clear *)
